@@ -75,6 +75,7 @@ func C05(r *core.Run) {
 	core.ParallelW(np, 8, func(pi int) { c05porcupine(r, pi) })
 	nc := r.Pick(60, 1200)
 	core.ParallelW(nc, 8, func(ci int) { c05channel(r, ci) })
+	c05stall(r)
 	r.Count("schedule_points_hit", atomic.LoadInt64(&sc.hits))
 	r.Set("race_reports_in_this_run", "written to replays/C05-race.* by the race detector (decided by C10)")
 }
@@ -646,6 +647,56 @@ func c05channel(r *core.Run, ci int) {
 		case <-time.After(10 * time.Second):
 			r.Violate("channelevents:not-closed", "the channel was not closed", nil)
 			return
+		}
+	}
+}
+
+// c05stall: the main loop is held up for longer than the escape timeout by a
+// redraw on a slow terminal while the second half of a key sequence is read:
+// the sequence must still come out as one key.
+func c05stall(r *core.Run) {
+	rounds := r.Pick(16, 300)
+	ti := Pristine("xterm-256color")
+	for k := 0; k < rounds; k++ {
+		ls, err := startScreen(ti, 20, 5, nil)
+		if err != nil {
+			r.Inconclusive(err.Error())
+			return
+		}
+		wait := ls.startPoll(0x1d)
+		t1 := time.Now()
+		ls.tty.Feed([]byte("\x1b"))
+		for i := 0; i < 300; i++ {
+			runtime.Gosched()
+		}
+		atomic.StoreInt64(&ls.tty.WriteDelayNS, int64(90*time.Millisecond))
+		ls.tty.SetSize(21+k%2, 6)
+		ls.tty.NotifyNow()
+		stalled := false
+		for i := 0; i < 200000 && !stalled; i++ {
+			stalled = atomic.LoadInt32(&ls.tty.InDelay) > 0
+			runtime.Gosched()
+		}
+		ls.tty.Feed([]byte("[A"))
+		gap := time.Since(t1)
+		atomic.StoreInt64(&ls.tty.WriteDelayNS, 0)
+		ls.tty.Feed([]byte{0x1d})
+		got, ok := wait()
+		ls.fini()
+		switch {
+		case !ok:
+			r.Inconclusive("stall scenario: sentinel not delivered")
+			r.Case("")
+		case !stalled || gap > 40*time.Millisecond:
+			// the harness did not manage to deliver the second read inside the timeout window
+			r.Count("stall_rounds_with_compromised_timing", 1)
+			r.Case("")
+		default:
+			r.Case(fmt.Sprintf("stall|%d", k))
+			r.Count("stall_rounds", 1)
+			if len(got) != 1 || got[0].T != "key" || got[0].Key != tcell.KeyUp {
+				r.Violate("input:changed:stalled-main-loop", fmt.Sprintf("ESC and [A read %v apart while the main loop was held up 90 ms by a redraw on a slow terminal: delivered %s, expected one Up key", gap, evsStr(got)), nil)
+			}
 		}
 	}
 }
